@@ -215,6 +215,7 @@ type Obligation struct {
 	Pos       string
 	Text      string // human readable source of the goal
 	ExpectSat bool   // cover obligations: sat is the good answer
+	Explicit  bool   // the clause carries its own property tags
 	vc        *VC
 	// results
 	Verdict string // unsat | sat | unknown | timeout | error
